@@ -81,6 +81,8 @@ var contracts = map[string]*Contract{
 	"errors.New":                                   {Fresh: true, NonNil: []int{0}, Note: "non-nil error"},
 	"fmt.Sprintf":                                  {Fresh: true, Det: true},
 	"strings.ToLower":                              {Det: true},
+	"strings.Compare":                              {Det: true, Note: "0 iff equal"},
+	"bytes.Compare":                                {Det: true, Note: "0 iff equal"},
 	"bytes.Equal":                                  {Det: true},
 	"bytes.TrimRight":                              {Det: true, Note: "result is a prefix of the argument: 0 <= len(result) <= len(arg)"},
 	"encoding/xml.NewDecoder":                      {Fresh: true, NonNil: []int{0}, Note: "decoder over the reader; Decode(v) on a fresh decoder is Unmarshal(all bytes, v)"},
